@@ -146,12 +146,19 @@ def check(run, driver):
     for info in ESTIMATORS:
         reps = (3 if thorough else 1) if info in ("geometric_knn", "poisson") else (6 if thorough else 2)
         for rep in range(reps):
-            plans.append((info, METHODS[(rep + ESTIMATORS.index(info)) % 4]))
+            plans.append((info, METHODS[(rep + ESTIMATORS.index(info)) % 4], "plain"))
+    # "any values": a variable that does not move over the window (stuck sensor) placed BEFORE the informative ones, and coarsely rounded
+    # readings (many repeated values per column) -- under the estimators that accept them, LASSO selections so that edges exist
+    for j in range(4 if thorough else 2):
+        plans.append((["knn", "kde"][j % 2], ["standard", "lasso"][j % 2] if j < 2 else ["alternative", "information_lasso"][j % 2], "constant-first"))
+        plans.append((["knn", "geometric_knn"][j % 2], ["lasso", "information_lasso"][j % 2], "rounded"))
     ntests = 0
     hoeff = []
     hoeff_plan = []
-    for info, method in plans:
+    for info, method, dkind in plans:
         n = int(rng.integers(2, 4)); L = int(rng.integers(1, 3)); T = int(rng.integers(40, 81)) if info not in ("geometric_knn", "poisson") else 40
+        if dkind != "plain":
+            n, L = 3, 2
         nsh = 20
         if info == "poisson":
             data = rng.poisson(2.0, size=(T, n)).astype(float)
@@ -165,6 +172,17 @@ def check(run, driver):
             data = rng.standard_t(2, size=(T, n)) * 0.3
             for t in range(1, T):
                 data[t, 1] += 0.95 * data[t - 1, 0]
+        if dkind == "constant-first":
+            data = rng.standard_normal((T, n)) * 0.5
+            data[:, 0] = 1.5                                  # never moves
+            for t in range(2, T):
+                data[t, 2] += 0.9 * data[t - 2, 1]            # X1 drives X2 at lag 2
+        elif dkind == "rounded":
+            data = rng.standard_normal((T, n))
+            for t in range(1, T):
+                data[t, 1] += 0.9 * data[t - 1, 0]
+                data[t, 2] += 0.7 * data[t - 1, 1]
+            data = np.round(data, 1)                          # readings with one decimal: every column has many repeated values
         k = int(rng.integers(2, 5))
         metric = ["euclidean", "minkowski", "cityblock", "chebyshev"][len(hoeff_plan) % 4] if info in ("knn", "geometric_knn") else "euclidean"
         bw = ["silverman", "scott", 0.6][len(hoeff_plan) % 3] if info == "kde" else "silverman"
@@ -182,8 +200,8 @@ def check(run, driver):
             G = discover_network(arg, **kw)
         pos = {nm: i for i, nm in enumerate(names)}
         edges = DC.graph_edges(G)
-        case = {"data_seed": run.seed, "n": n, "T": T, **kw, "data": data}
-        run.case("real-" + info, [info, method, n, L, T, float(data[0, 0])], len(edges) >= 1, sample={"information": info, "method": method, "n": n, "T": T, "edges": [(a, b, l) for a, b, l, _, _ in edges]})
+        case = {"data_seed": run.seed, "n": n, "T": T, **kw, "data": data, "data_kind": dkind}
+        run.case("real-" + info + ("" if dkind == "plain" else "-" + dkind), [info, method, n, L, T, float(data[0, 0])], len(edges) >= 1, sample={"information": info, "method": method, "n": n, "T": T, "edges": [(a, b, l) for a, b, l, _, _ in edges]})
         by_target = {}
         for (a, b, lag, c, p) in edges:
             by_target.setdefault(b, []).append((a, lag))
